@@ -974,6 +974,8 @@ func round7(w *World, r *Report, prop string) {
 		r.Rule("R07.15", "line and column lie inside the text the caller handed in: the lexer scans that text itself (lexer.input is the parameter as it stands), since Tree.errorf and ErrorContext measure positions in it", 1)
 		r.guard("R07.15", func() { r7LexerScansTheTextGiven(w, r, "R07.15") })
 	case "C08":
+		r.Rule("R08.22", "only double-quoted text is decoded: escapeSequenceSubstitution is used by trimWhitespace alone, which argumentQuoted calls exactly for a double-quoted piece (R08.3)", 1)
+		r.guard("R08.22", func() { r8EscapesOnlyWhenDoubleQuoted(w, r, "R08.22") })
 		r.Rule("R08.21", "separators are space, tab, CR and LF only: lexSep moves over the input through the lexer's next() under isSep — it neither sets the position itself nor asks another classifier", 1)
 		r.guard("R08.21", func() { r8SeparatorSet(w, r, "R08.21") })
 		r.Rule("R08.20", "a token's text is its own: the string interner every token value passes through hands back a string equal to the one it was given (table keyed by, and holding, the whole string)", 1)
@@ -983,9 +985,17 @@ func round7(w *World, r *Report, prop string) {
 		r.Rule("R08.19", "an unquoted argument is the text up to the next separator, quote, ';', '{', '}' or the end of the input — exactly that set, CR included", 1)
 		r.guard("R08.19", func() { r7WordTerminators(w, r, "R08.19") })
 	case "C09":
+		r.Rule("R09.17", "hand-written number readers test both bounds: wherever package parse turns a byte into a digit value by subtracting '0', every way there has tested the byte to lie in '0'..'9' (there is no such reader on the reviewed tree: the integer arguments go through strconv)", 0)
+		r.guard("R09.17", func() { r8DigitBytesBounded(w, r, "R09.17") })
+		r.Rule("R09.16", "an error names the place it is about: the column printed is pos − (index of the last line break + 1) for every index from −1 up, computed from the last LF before the position (Tree.ErrorContextPosition and Tree.errorf)", 2)
+		r.guard("R09.16", func() { c10ColumnRule(w, r, "R09.16") })
 		r.Rule("R09.15", "every statement is checked, whatever was checked before: in Tree.stmt the call of check() lies on every path that returns the node built (no memo of arguments already seen)", 1)
 		r.guard("R09.15", func() { r7StmtAlwaysChecked(w, r, "R09.15") })
 	case "C10":
+		r.Rule("R10.18", "validating an argument does not change it: no Parse method of an argument type (nor a helper it calls) assigns the arg field", 10)
+		r.guard("R10.18", func() { r8ArgTextKept(w, r, "R10.18") })
+		r.Rule("R10.19", "only double-quoted text is decoded: escapeSequenceSubstitution is used by trimWhitespace alone, which argumentQuoted calls exactly for a double-quoted piece (R10.3/R08.3)", 1)
+		r.guard("R10.19", func() { r8EscapesOnlyWhenDoubleQuoted(w, r, "R10.19") })
 		r.Rule("R10.17", "separators are space, tab, CR and LF only: lexSep moves over the input through the lexer's next() under isSep — it neither sets the position itself nor asks another classifier", 1)
 		r.guard("R10.17", func() { r8SeparatorSet(w, r, "R10.17") })
 		r.Rule("R10.16", "a token's text is its own: the string interner every token value passes through hands back a string equal to the one it was given (table keyed by, and holding, the whole string)", 1)
@@ -1395,4 +1405,121 @@ func r8SeparatorSet(w *World, r *Report, rule string) {
 		why = "isSep is not consulted"
 	}
 	r.Check(why == "", rule, "lexSep skips exactly the separators", f.Pos(), "moves with next() while isSep", why+": characters other than space, tab, CR and LF (a no-break space, U+3000, form feed) are swallowed into the separator although they are part of the following word, so an unquoted argument loses its first character(s) and differs from the same text written in quotes")
+}
+
+// r8DigitBytesBounded (R09.17): wherever package parse turns a byte into a
+// digit value by subtracting '0', the byte has been tested to lie in '0'..'9'
+// on every way there.
+func r8DigitBytesBounded(w *World, r *Report, rule string) {
+	sym := NewSym(w)
+	n := 0
+	for _, fn := range allFuncs(w.SSAPkg("parse")) {
+		if isTestFile(w, fn.Pos()) || fn.Blocks == nil {
+			continue
+		}
+		for _, b := range fn.Blocks {
+			for _, in := range b.Instrs {
+				bo, ok := in.(*ssa.BinOp)
+				if !ok || bo.Op != token.SUB {
+					continue
+				}
+				k, isK := intConstOf(bo.Y)
+				if !isK || k != '0' {
+					continue
+				}
+				v := stripConv(bo.X)
+				if _, isIdx := v.(*ssa.Index); !isIdx { // s[i] of a string; else an element of a byte slice
+					ld, isLd := v.(*ssa.UnOp)
+					if !isLd || ld.Op != token.MUL {
+						continue
+					}
+					if _, isIA := ld.X.(*ssa.IndexAddr); !isIA {
+						continue
+					}
+				}
+				n++
+				cond := sym.PathCond(fn.Blocks[0], b, nil)
+				vals, decided := pcValuesWhen(cond, sym.Key(v, nil))
+				good := decided && len(vals.minus(ISet{{'0', '9'}})) == 0
+				r.Check(good, rule, fmt.Sprintf("%s: digit value of %s", funcKey(fn), v.String()), bo.Pos(), "reached only with the byte in '0'..'9'", "a byte is turned into a digit value without having been tested against both '0' and '9': characters that sort below '0' (or above '9') are accepted as digits, so an argument such as `1/` is taken for a number")
+			}
+		}
+	}
+	r.Analysed["R09.17: byte-to-digit conversions examined in package parse"] = n
+}
+
+// r8ArgTextKept (R10.18): no Parse method of an argument type assigns the
+// argument text it validates.
+func r8ArgTextKept(w *World, r *Report, rule string) {
+	n := 0
+	for _, fn := range allFuncs(w.SSAPkg("parse")) {
+		if isTestFile(w, fn.Pos()) || fn.Blocks == nil || fn.Name() != "Parse" || fn.Signature.Recv() == nil {
+			continue
+		}
+		n++
+		bad := token.NoPos
+		for _, g := range bodiesDeep(fn, 1) {
+			if g.Pkg != fn.Pkg {
+				continue
+			}
+			for _, b := range g.Blocks {
+				for _, in := range b.Instrs {
+					st, ok := in.(*ssa.Store)
+					if !ok {
+						continue
+					}
+					fa, ok := st.Addr.(*ssa.FieldAddr)
+					if !ok {
+						continue
+					}
+					// the receiver's own text (sub-arguments built on the way are fresh objects)
+					if g != fn || fa.X != ssa.Value(fn.Params[0]) {
+						continue
+					}
+					if sty, isSt := fa.X.Type().Underlying().(*types.Pointer).Elem().Underlying().(*types.Struct); isSt && sty.Field(fa.Field).Name() == "arg" {
+						bad = st.Pos()
+					}
+				}
+			}
+		}
+		r.Check(!bad.IsValid(), rule, funcKey(fn)+" leaves the argument text alone", fn.Pos(), "no assignment to the arg field", "the validator rewrites the argument it checks ("+w.PosStr(bad)+"): the tree no longer carries the decoded source text (a pattern shows its translated form) although nothing in the source changed")
+	}
+	if n < 10 {
+		panic(undecided{"fewer argument Parse methods than expected"})
+	}
+}
+
+// r8EscapesOnlyWhenDoubleQuoted (R08.22 / R10.19): escape substitution is
+// reached only through trimWhitespace, which argumentQuoted calls for a
+// double-quoted piece (R08.3).
+func r8EscapesOnlyWhenDoubleQuoted(w *World, r *Report, rule string) {
+	esc := w.SSAFunc(w.Func("parse", "escapeSequenceSubstitution"))
+	tw := w.SSAFunc(w.Func("parse", "trimWhitespace"))
+	if esc == nil || tw == nil {
+		panic(undecided{"parse.escapeSequenceSubstitution / trimWhitespace"})
+	}
+	var callers []string
+	n := 0
+	for _, fn := range allFuncs(w.SSAPkg("parse")) {
+		if isTestFile(w, fn.Pos()) || fn.Blocks == nil {
+			continue
+		}
+		for _, b := range fn.Blocks {
+			for _, in := range b.Instrs {
+				for _, op := range in.Operands(nil) {
+					if *op == ssa.Value(esc) {
+						n++
+						if fn != tw {
+							callers = append(callers, fn.Name())
+						}
+					}
+				}
+			}
+		}
+	}
+	if n == 0 {
+		panic(undecided{"escapeSequenceSubstitution is never used"})
+	}
+	sort.Strings(callers)
+	r.Check(len(callers) == 0, rule, "escapeSequenceSubstitution is used by trimWhitespace only", esc.Pos(), fmt.Sprintf("%d use(s), all in trimWhitespace", n), "escape sequences are also substituted in "+strings.Join(callers, ", ")+": an unquoted (or single-quoted) argument containing a backslash is decoded like a double-quoted one, so `c:\\\\temp\\new` loses its backslashes and gains a line feed")
 }
